@@ -33,8 +33,10 @@ impl Display for Variable {
     fn fmt(&self, f: &mut std::fmt::Formatter<'_>) -> std::fmt::Result {
         match self {
             Variable::Variable(name) => {
-                if name.contains("_") {
-                    //if it's a variable to be escaped
+                // escaped only when it would otherwise read as a compound variable; a simple
+                // variable may start with `$` and underscores (`__t`, `_c1`)
+                let body = name.trim_start_matches('$').trim_start_matches('_');
+                if body.contains('_') {
                     write!(f, "\\{}", name)
                 } else {
                     write!(f, "{}", name)
